@@ -68,3 +68,15 @@ Theorem C05_halt_bug :
   forall a, xhaltbug a = true -> xpc (after_fetch a) = xpc a /\ xhaltbug (after_fetch a) = false.
 Proof. exact halt_bug_fetch. Qed.
 Print Assumptions C05_halt_bug.
+
+(* non-vacuity: a halted power-on CPU on the test bus with nothing enabled idles (here 25 cycles); with VBlank enabled and
+   requested and the master enable set it is at the vector after six cycles *)
+From V.model Require Import Ints SimpleBus.
+Example C05_example :
+  let s := set_halted true cpu_init in
+  let idle := mkSbus (sb_mem sb_init) (sb_rom sb_init) (ints_write_ie ints_init 0) in
+  let b := mkSbus (sb_mem sb_init) (sb_rom sb_init) (ints_write_ie ints_init 1) in
+  let run n x := run_env sbus sb_rd sb_wr sb_trig sb_corrupt sb_ime sb_set_ime sb_pending sb_ack gen_tables (fun _ x => x) 0 n (s, x) in
+  boundary s /\ sb_pending idle = 0 /\ halted (fst (run 25%nat idle)) = true /\ pc (fst (run 25%nat idle)) = 256 /\
+  pc (fst (run 6%nat b)) = 64 /\ halted (fst (run 6%nat b)) = false /\ sb_ime (snd (run 6%nat b)) = false.
+Proof. vm_compute. repeat split. Qed.
